@@ -3,7 +3,6 @@
 from __future__ import annotations
 
 import base64
-import binascii
 import html
 import re
 import urllib.parse
@@ -359,9 +358,13 @@ def truncatewords(val: str, num: Any = 15, end: str = "...") -> str:
 @string_filter
 def url_encode(val: str, *, environment: Environment) -> str:
     """Return a percent-encoded copy of _val_ so it is useable in a URL."""
+    try:
+        encoded = urllib.parse.quote_plus(val)
+    except UnicodeEncodeError as err:
+        raise FilterError("can't encode string as UTF-8", token=None) from err
     if environment.autoescape:
-        return Markup(urllib.parse.quote_plus(val))
-    return urllib.parse.quote_plus(val)
+        return Markup(encoded)
+    return encoded
 
 
 @string_filter
@@ -374,7 +377,10 @@ def url_decode(val: str) -> str:
 @string_filter
 def base64_encode(val: str) -> str:
     """Return _val_ encoded in base64."""
-    return base64.b64encode(val.encode()).decode()
+    try:
+        return base64.b64encode(val.encode()).decode()
+    except UnicodeEncodeError as err:
+        raise FilterError("can't encode string as UTF-8", token=None) from err
 
 
 @string_filter
@@ -385,14 +391,17 @@ def base64_decode(val: str) -> str:
     """
     try:
         return base64.b64decode(val).decode()
-    except binascii.Error as err:
+    except ValueError as err:
         raise FilterError("invalid base64-encoded string", token=None) from err
 
 
 @string_filter
 def base64_url_safe_encode(val: str) -> str:
     """Return _val_ encoded in URL-safe base64."""
-    return base64.urlsafe_b64encode(val.encode()).decode()
+    try:
+        return base64.urlsafe_b64encode(val.encode()).decode()
+    except UnicodeEncodeError as err:
+        raise FilterError("can't encode string as UTF-8", token=None) from err
 
 
 @string_filter
@@ -403,7 +412,7 @@ def base64_url_safe_decode(val: str) -> str:
     """
     try:
         return base64.urlsafe_b64decode(val).decode()
-    except binascii.Error as err:
+    except ValueError as err:
         raise FilterError("invalid base64-encoded string", token=None) from err
 
 
